@@ -12,7 +12,10 @@ import (
 	"encoding/json"
 	"fmt"
 	"os"
+	"os/signal"
+	"path/filepath"
 	"reflect"
+	"syscall"
 	"strings"
 	"testing"
 	"time"
@@ -266,8 +269,81 @@ func Observe(label string, v any) {
 	cur.res.Observed[label] = render(reflect.ValueOf(v))
 }
 
+// ---- file system (C18): natively the real file system in a scratch directory; the only fault that
+// can be injected is "the write is cut short after k bytes" (RLIMIT_FSIZE = k). ----
+
+var (
+	fsDir     string
+	fsLimited bool
+	fsOld     syscall.Rlimit
+)
+
+func fsdir() string {
+	if fsDir == "" {
+		fsDir, _ = os.MkdirTemp("", "zzverif-fs-")
+	}
+	return fsDir
+}
+
+func FSPath(name string) string { return filepath.Join(fsdir(), name) }
+
+func FSWrite(name, content string) { os.WriteFile(FSPath(name), []byte(content), 0o644) }
+
+// FSSymlink turns the file into a symbolic link to a file with the same content.
+func FSSymlink(name string) {
+	p := FSPath(name)
+	os.Rename(p, p+".data")
+	os.Symlink(p+".data", p)
+}
+
+func FSRead(name string) (string, bool) {
+	b, err := os.ReadFile(FSPath(name))
+	return string(b), err == nil
+}
+
+func fsRestore() {
+	if fsLimited {
+		syscall.Setrlimit(syscall.RLIMIT_FSIZE, &fsOld)
+		fsLimited = false
+	}
+}
+
+func FSArm(op int, k int, crash bool) {
+	fsRestore()
+	if op < 0 {
+		return
+	}
+	if crash {
+		cur.res.Desync = "a crash point cannot be injected natively"
+		return
+	}
+	signal.Ignore(syscall.SIGXFSZ)
+	syscall.Getrlimit(syscall.RLIMIT_FSIZE, &fsOld)
+	lim := fsOld
+	lim.Cur = uint64(k)
+	if syscall.Setrlimit(syscall.RLIMIT_FSIZE, &lim) == nil {
+		fsLimited = true
+	}
+}
+
+func FSOps() int { return 1 << 30 }
+
+func FSWrites(name string) int { return 0 }
+
+func FSOthers() int {
+	es, _ := os.ReadDir(fsdir())
+	return len(es)
+}
+
 func runCase(c Case, fn func()) (res Result) {
 	res = Result{ID: c.ID, Observed: map[string]string{}}
+	defer func() {
+		fsRestore()
+		if fsDir != "" {
+			os.RemoveAll(fsDir)
+			fsDir = ""
+		}
+	}()
 	cur = &state{c: c, res: &res, seen: map[string]int{}, obsN: map[string]int{}}
 	defer func() {
 		if p := recover(); p != nil {
